@@ -96,6 +96,38 @@ def import_text(text):
     return mod, cleanup
 
 
+RUN_LIMIT_S = 20.0   # the originals run in milliseconds (bounded loops); a round-tripped Loop that never ends must not hang the worker
+
+
+class NonTermination(Exception):
+    pass
+
+
+def guarded_run(sess, feeds, limit=None):
+    """sess.run in a thread; after `limit` seconds RunOptions.terminate stops ORT at the next node (Loop bodies included)."""
+    import threading
+
+    ro = runner.ort().RunOptions()
+    box = {}
+
+    def work():
+        try:
+            box["out"] = sess.run(None, feeds, ro)
+        except BaseException as e:  # noqa: BLE001
+            box["exc"] = e
+
+    t = threading.Thread(target=work, daemon=True)
+    t.start()
+    t.join(limit or RUN_LIMIT_S)
+    if t.is_alive():
+        ro.terminate = True
+        t.join(30.0)
+        raise NonTermination()
+    if "exc" in box:
+        raise box["exc"]
+    return box["out"]
+
+
 def skipped_initializers(model):
     """Initializers the exporter documents as skipped (more than 4 elements), in the exporter's traversal order."""
     out = []
@@ -301,7 +333,10 @@ def _run_pipeline(proto, opts, feeds_list, expected, like_model, function_name, 
     for k, (feeds, exp) in enumerate(zip(feeds_list, expected)):
         res["stage"] = "run"
         try:
-            got = sess.run(None, dict(zip(names2, feeds)))
+            got = guarded_run(sess, dict(zip(names2, feeds)))
+        except NonTermination:
+            res["fail"] = _fail("run", "does_not_terminate", msg=f"no result after {RUN_LIMIT_S:.0f}s; run terminated")
+            return res
         except Exception as e:
             msg = f"{type(e).__name__}: {e}"
             kind = "not_implemented" if runner.classify(msg) == "not_implemented" else "ort_fails"
